@@ -16,6 +16,7 @@ harness and rendered as a Gallina `case` term):
   [9, ctx, emax, raddr, cid?, change, emap, probe]   process_nlri_change with a recording sink
   [10, ctx, router_id, cid?, attrs]       run_select's is_as_loop filter + PeerSession::rx_update
   [11, ctx, emax, raddr, cid?, source, nh?, attrs]   Table::insert + export, then Table::restale_llgr + export
+  [13, ctx, emax, raddr, cid?, family, [change..], probe]   a history of changes through one ExportMap
   [12, ..as 9.., policy]                  process_nlri_change with a real one-statement table::PolicyAssignment
                                           policy = [nh_action?, med_action?, statement disposition, default disposition]
 with attr = [code, flags, kind(0 Val,1 Bin,2 Opaque), payload], ip = [0|1, bytes],
@@ -206,6 +207,9 @@ def case_coq(c):
         body = 'CProcessPol %s %d %s %s %s %s %s (Build_stmt %s %s %s) %s' % (
             c_ctx(c[1]), c[2], c_ip(c[3]), copt(c[4], c_num), c_change(c[5]), c_emap(c[6]), cbytes(c[7]),
             copt(pol[0], c_nha), copt(pol[1], c_med), dn[pol[2]], dn[pol[3]])
+    elif t == 13:
+        body = 'CHistory %s %d %s %s %s %s' % (c_ctx(c[1]), c[2], c_ip(c[3]), copt(c[4], c_num),
+                                               cl([c_change(ch) for ch in c[6]]), cbytes(c[7]))
     elif t == 11:
         body = 'CLlgrScenario %s %d %s %s %s %s %s' % (c_ctx(c[1]), c[2], c_ip(c[3]), copt(c[4], c_num),
                                                        c_src(c[5])[len('(SrcPeer '):-1], copt(c[6], c_nh), c_attrs(c[7]))
@@ -741,6 +745,10 @@ class Prop:
         for _ in range(250 * scale):
             c9 = self.gen_process(rng)
             cases.append([12] + c9[1:] + [self.gen_policy(rng)])
+        # --- histories through one ExportMap: announce / replace / re-rank / withdraw sequences over
+        # two destinations and a small pool of paths, sources flipping to LLGR-stale in between
+        for _ in range(150 * scale):
+            cases.append(self.gen_history(rng))
         # --- the LLGR period begins for the source of an advertised route
         for s_, d, cid, confed in self.matrix():
             if s_[0] != 2 or confed:
@@ -786,6 +794,46 @@ class Prop:
                 cid = [0x01020304] if (role in (IBGP, RRC) or rng.random() < 0.1) else []
                 cases.append([10, x, 0x01000001, cid, self.gen_attrs(rng, mode)])
         return cases
+
+    def gen_history(self, rng):
+        d = rng.choice(ROLES)
+        x = self.gen_ctx(rng, d)
+        emax = rng.choice([1, 1, 2, 3])
+        raddr = rng.choice(self.ADDR4[:3])
+        cid = [0x01020304] if d in (IBGP, RRC) else []
+        fam = rng.choice([IPV4, IPV4, IPV6])
+        pool = []
+        for pid in (1, 2, 3, 4):
+            pool.append([pid, self.gen_source(rng), self.gen_nh(rng), self.gen_attrs(rng, 'wire')])
+        changes = []
+        state = {1: [], 2: []}
+        for _ in range(rng.choice([2, 3, 4, 6])):
+            dest = rng.choice([1, 2])
+            cur = state[dest]
+            k = rng.random()
+            replaced = []
+            if k < 0.35 or not cur:
+                cand = [p for p in pool if p[0] not in [q[0] for q in cur]]
+                if cand:
+                    cur = cur + [json.loads(json.dumps(rng.choice(cand)))]
+            elif k < 0.55:
+                cur = cur[1:] if rng.random() < 0.5 else cur[:-1]
+            elif k < 0.75:
+                i = rng.randrange(len(cur))
+                cur = [json.loads(json.dumps(q)) for q in cur]
+                cur[i][3] = self.gen_attrs(rng, 'wire')
+                replaced = [cur[i][0]]
+            elif k < 0.9:
+                cur = [json.loads(json.dumps(q)) for q in cur]
+                for q in cur:
+                    if q[1][0] == 2:
+                        q[1][6] = 1          # the LLGR period of the sources begins
+            else:
+                cur = list(reversed(cur))
+            state[dest] = cur
+            changes.append([fam, dest, 1 if rng.random() < 0.85 else 0, 1 if rng.random() < 0.9 else 0, replaced,
+                            json.loads(json.dumps(cur))])
+        return [13, x, emax, raddr, cid, fam, changes, [1, 2]]
 
     def gen_policy(self, rng):
         nh = []
@@ -856,6 +904,8 @@ class Prop:
             lists = [p[3] for p in c[5][5]]
         elif t == 11 and c[1][0] in (IBGP, RRC):
             lists = [c[7]]
+        elif t == 13 and c[1][0] in (IBGP, RRC):
+            lists = [p[3] for ch in c[6] for p in ch[5]]
         else:
             return False
         if t == 12 and c[8][1]:
@@ -872,7 +922,7 @@ class Prop:
             return srt(obs)
         if t == 10:
             return [srt(o) for o in obs]
-        if t in (9, 12):
+        if t in (9, 12, 13):
             ops = [[o[0], o[1], o[2], o[3], srt(o[4]), o[5]] if o[0] == 1 else o for o in obs[0]]
             return [ops, obs[1]]
         if t == 11:
@@ -957,6 +1007,8 @@ class Prop:
             return None
         if t in (9, 12):
             return self.oracle_process(c, obs)
+        if t == 13:
+            return self.oracle_history(c, obs)
         if t == 11:
             if obs == [-1]:
                 return 'LLGR scenario panicked' if attrs_wf(c[7]) else None
@@ -987,6 +1039,35 @@ class Prop:
             if why and obs != []:
                 return 'route installed although ' + why
             return None
+        return None
+
+    def oracle_history(self, c, obs):
+        """every Reach of the history is judged like a single-step advertisement against the
+        paths of the changes for its destination (the path with the same id and attributes
+        that explains it), so the never-rules and the rewrite rules are checked along the way"""
+        x, emax, raddr, cid, fam, changes = c[1], c[2], c[3], c[4], c[5], c[6]
+        if obs == [-1]:
+            if all(attrs_wf(p[3]) for ch in changes for p in ch[5]):
+                return 'process_nlri_change panicked on decodable attributes'
+            return None
+        for op in obs[0]:
+            if op[0] != 1:
+                continue
+            dest, pid = op[1], op[2]
+            cands = []
+            for ch in changes:
+                if ch[1] != dest:
+                    continue
+                ps = ch[5][:1] if emax == 1 else [p for p in ch[5] if p[0] == pid]
+                cands += ps
+            if not cands:
+                return 'history: advertisement of a path that is in no change'
+            whys = []
+            for p in cands:
+                one = [9, x, emax, raddr, cid, [fam, dest, 1, 1, [], [p]], [0], []]
+                whys.append(self.oracle_process(one, [[[op[0], op[1], op[2] if emax != 1 else 0, op[3], op[4], op[5]]], []]))
+            if all(whys):
+                return 'history: ' + whys[0]
         return None
 
     def oracle_process(self, c, obs):
@@ -1153,15 +1234,17 @@ class Prop:
             return (t, c[1][0], bool(c[3]), obs == [], self._shape(c[4]))
         if t == 11:
             return (t, c[1][0], c[5][5], c[2], bool(c[4]), len(obs[0]), len(obs[1])) if obs[0] else None
+        if t == 13:
+            return (t, c[1][0], min(c[2], 2), tuple((o[0], o[1], o[2]) for o in obs[0]), json.dumps(obs[1])) if obs[0] else None
         return None
 
     def classify(self, c, obs):
         names = ['prepend', 'strip_confed', 'is_as_loop', 'export_attrs', 'pre_policy_defaults', 'rr_reflect',
-                 'llgr_stale', 'inject_local_pref', 'suppress_predicates', 'process_nlri_change', 'rx_update', 'llgr_scenario', 'process_nlri_change_policy']
+                 'llgr_stale', 'inject_local_pref', 'suppress_predicates', 'process_nlri_change', 'rx_update', 'llgr_scenario', 'process_nlri_change_policy', 'history']
         tags = ['op_' + names[c[0]]]
         if obs == [-1]:
             tags.append('panic')
-        if c[0] in (3, 4, 9, 10, 11, 12):
+        if c[0] in (3, 4, 9, 10, 11, 12, 13):
             tags.append('dest_' + ROLE_NAMES[c[1][0]])
         # which branch of the model the case drives
         t = c[0]
